@@ -8,6 +8,7 @@ value of a digit string; `ValidDigits base s`: every character is `0-9a-zA-Z` of
 `< base`; `hexEncodeSpec` = two lower-case digits per byte.
 -/
 import Golib.Proof.C15Parse
+import Golib.Proof.C15Underscore
 import Golib.Proof.C15Hex
 import Golib.Proof.C15IP
 import Golib.Proof.C15Facts
@@ -72,6 +73,27 @@ example : parseUint [48, 120, 95, 102, 95, 70] 0 8 = (255, .ok) ∧
     parseUint [48, 120, 102, 95, 95, 102] 0 8 = (0, .syntax) ∧
     parseUint [48, 120, 49, 95, 48, 48] 0 8 = (255, .range) := by decide
 
+/-- `underscoreOK` accepts exactly the strings in which every underscore is immediately
+preceded by a digit or the base prefix and immediately followed by a digit
+(`usParts s` = hex flag, prefix flag and the text after the optional sign and prefix). -/
+theorem c15_underscoreOK_spec (s : List Nat) :
+    underscoreOK s = true ↔
+      UnderscoresSeparateDigits (usParts s).1 (usParts s).2.1 (usParts s).2.2 :=
+  underscoreOK_spec s
+
+example : underscoreOK [48, 120, 95, 49, 95, 102] = true ∧ underscoreOK [49, 95, 95, 48] = false ∧
+    underscoreOK [95, 49] = false ∧ underscoreOK [49, 95] = false := by decide
+
+/-- What the numeral vocabulary means: the digit switch recognises exactly `0-9a-zA-Z` with the
+usual values (for every byte), and `natValue` is positional notation. -/
+theorem c15_numeral_vocabulary :
+    (∀ c, c < 256 → digit? c =
+      if 48 ≤ c ∧ c ≤ 57 then some (c - 48) else if 97 ≤ c ∧ c ≤ 122 then some (c - 87)
+      else if 65 ≤ c ∧ c ≤ 90 then some (c - 55) else none) ∧
+    (∀ base, natValue base [] = 0) ∧
+    (∀ base s c, natValue base (s ++ [c]) = natValue base s * base + digitOf c) :=
+  ⟨digit?_classes, natValue_nil, natValue_snoc⟩
+
 /-- Syntax errors: the first character that is not acceptable (`BadChar`: not a digit `< base`,
 and not an underscore under `base == 0`) after a valid prefix gives `(0, syntax)` — unless the
 prefix alone already exceeds `maxVal`, in which case the range error comes first. Explicit
@@ -98,6 +120,41 @@ example : BadChar false 10 43 ∧ parseUint [43, 49] 10 64 = (0, .syntax) := by
   intro d hd
   have : digit? 43 = none := by decide
   rw [this] at hd; cases hd
+
+/-- Complete characterisation, explicit base 2..36, any non-empty string: with `pre` the
+longest prefix of digits `< base`: the value of `pre` exceeding `maxVal` gives
+`(maxVal, range)`; otherwise a remaining character gives `(0, syntax)`; otherwise the value.
+Together with `c15_parseUint_total_base0` and `c15_parseUint_args` this determines the
+result of `ParseUint` for every string, base and bit size. -/
+theorem c15_parseUint_total (s : List Nat) (base bits : Nat)
+    (hb : 2 ≤ base ∧ base ≤ 36) (hbits : bits ≤ 64) (hne : s ≠ []) :
+    parseUint s (base : Int) (bits : Int) =
+      if natValue base (s.takeWhile (okDigit base)) ≤ 2 ^ effBits bits - 1 then
+        if (s.takeWhile (okDigit base)).length < s.length then (0, .syntax)
+        else (natValue base s, .ok)
+      else (2 ^ effBits bits - 1, .range) :=
+  parseUint_total_explicit s base bits hb.1 hb.2 hbits hne
+
+/-- Complete characterisation for `base == 0`, any non-empty string: `(b, body)` from the
+prefix handling, `pre` the longest prefix of `body` made of underscores and digits `< b`:
+range error if the digits of `pre` exceed `maxVal`; else syntax error if a character remains;
+else syntax error if there are underscores and `underscoreOK s` fails; else the value of the
+digits. -/
+theorem c15_parseUint_total_base0 (s : List Nat) (bits : Nat) (hbits : bits ≤ 64) (hne : s ≠ []) :
+    parseUint s 0 (bits : Int) =
+      let b := (base0Prefix s).1
+      let body := (base0Prefix s).2
+      let pre := body.takeWhile (okChar0 b)
+      if natValue b (stripUnderscores pre) ≤ 2 ^ effBits bits - 1 then
+        if pre.length < body.length then (0, .syntax)
+        else if body.contains 95 = true ∧ underscoreOK s = false then (0, .syntax)
+        else (natValue b (stripUnderscores body), .ok)
+      else (2 ^ effBits bits - 1, .range) :=
+  parseUint_total_base0 s bits hbits hne
+
+-- prefix handling as coded: "0x1f" → (16, "1f"); "0x" → (8, "x") (too short for a prefix); "017" → (8, "17")
+example : base0Prefix [48, 120, 49, 102] = (16, [49, 102]) ∧ base0Prefix [48, 120] = (8, [120]) ∧
+    base0Prefix [48, 49, 55] = (8, [49, 55]) ∧ base0Prefix [49, 55] = (10, [49, 55]) := by decide
 
 /-- Argument checks in the coded order: empty string → syntax error (whatever base and bit
 size); otherwise a base outside `{0} ∪ 2..36` → base error; otherwise a bit size outside
@@ -154,6 +211,14 @@ theorem c15_hex_decode_valid (s : List Nat) (hs : AllHex s) :
 overrun), for any input. -/
 theorem c15_hex_decode_total (s : List Nat) : hexDecode? s ≠ none := by
   rw [hexDecode?_eq]; exact Option.some_ne_none _
+
+/-- `HexDecodeInPlace(b)` (= `hex.Decode(b, b)`) never panics and agrees with `HexDecode`:
+same count, same error, the first `n` bytes of the buffer are the decoded bytes and the rest
+of the buffer is unchanged (writing into the array being read is harmless). -/
+theorem c15_hex_decode_in_place (b : List Nat) :
+    ∃ out e, hexDecode? b = some (out, e) ∧
+      hexDecodeInPlace? b = some (out ++ b.drop out.length, out.length, e) :=
+  ⟨_, _, hexDecode?_eq b, hexDecodeInPlace?_eq b⟩
 
 -- "1g3" : invalid 'g' wins over the odd length; "abc" : odd length, one byte decoded
 example : hexDecode? [49, 103, 51] = some ([], .invalidByte 103) ∧
